@@ -6,7 +6,7 @@
     property C25); [ctys_ok]: const types are [usize] (ChalkIr); [same_kinds]: two
     substitutions for the same goal; [top_vars0]: variables outside fn/dyn binders belong to
     the canonical binder; [repeats_var]: the known class of finding F1. *)
-From Chalk Require Import Ir.Syntax Ir.Fold Agg.Instance Agg.AntiUnify Agg.MayInv Agg.Solution.
+From Chalk Require Import Ir.Syntax Ir.Fold Agg.Instance Agg.AntiUnify Agg.MayInv Agg.Solution Agg.Loop.
 
 (** Executable first-order matching is exactly "some instantiation of the pattern's
     canonical variables gives the term". *)
@@ -126,6 +126,47 @@ Check may_invalidate_fixed_conservative : forall root new (cur ans : csubst) g',
   may_invalidate MFix new cur = Ok false -> merge root cur ans = Ok g' ->
   instance_of_list new (snd cur) = true /\
   (repeats_var (snd cur) = false -> variant_list (snd g') (snd cur) = true).
+
+(** Guidance produced by a merge never repeats a variable: only a FIRST answer can be in the class F1. *)
+Theorem merge_never_repeats : forall root g ans g',
+  Forall ctys_ok (snd g) -> merge root g ans = Ok g' -> repeats_var (snd g') = false.
+Proof. exact merge_linear. Qed.
+Check merge_never_repeats : forall root g ans g',
+  Forall ctys_ok (snd g) -> merge root g ans = Ok g' -> repeats_var (snd g') = false.
+
+(** [make_solution] (the loop that merges answers until the check says no future answer can
+    change the guidance), for the repaired check and — when the first answer repeats no
+    variable — for the check as it is: definite guidance covers every answer of the stream. *)
+Theorem make_solution_covers : forall m root c ks amb rest strands bs s,
+  trusted_check m c ->
+  Forall top_vars0 (snd c) -> Forall ctys_ok (snd c) ->
+  Forall (answer_ok c) (answers_of rest) -> same_kinds (snd c) (snd (identity_csubst root)) ->
+  make_solution m root (EAnswer c ks amb :: rest) strands = Ok (Some (Ambig (Definite bs s))) ->
+  Forall (fun x => instance_of_list x s = true) (answers_of rest).
+Proof. exact make_solution_covers_lemma. Qed.
+Check make_solution_covers : forall m root c ks amb rest strands bs s,
+  trusted_check m c ->
+  Forall top_vars0 (snd c) -> Forall ctys_ok (snd c) ->
+  Forall (answer_ok c) (answers_of rest) -> same_kinds (snd c) (snd (identity_csubst root)) ->
+  make_solution m root (EAnswer c ks amb :: rest) strands = Ok (Some (Ambig (Definite bs s))) ->
+  Forall (fun x => instance_of_list x s = true) (answers_of rest).
+
+(** ... and finding F1 at this level: first answer [[Vec<^0>, ^0]], second answer [[Vec<I32>, U32]]. *)
+Theorem make_solution_refuted :
+  exists root c rest bs s,
+    Forall top_vars0 (snd c) /\ Forall ctys_ok (snd c) /\ Forall (answer_ok c) (answers_of rest) /\
+    same_kinds (snd c) (snd (identity_csubst root)) /\
+    repeats_var (snd c) = true /\
+    make_solution MOld root (EAnswer c [] false :: rest) [] = Ok (Some (Ambig (Definite bs s))) /\
+    ~ Forall (fun x => instance_of_list x s = true) (answers_of rest).
+Proof. exact make_solution_refuted_lemma. Qed.
+Check make_solution_refuted :
+  exists root c rest bs s,
+    Forall top_vars0 (snd c) /\ Forall ctys_ok (snd c) /\ Forall (answer_ok c) (answers_of rest) /\
+    same_kinds (snd c) (snd (identity_csubst root)) /\
+    repeats_var (snd c) = true /\
+    make_solution MOld root (EAnswer c [] false :: rest) [] = Ok (Some (Ambig (Definite bs s))) /\
+    ~ Forall (fun x => instance_of_list x s = true) (answers_of rest).
 
 (** [Solution::combine] yields the same result in either order (for two solutions of one goal). *)
 Theorem combine_comm : forall a b, compatible a b -> combine a b = combine b a.
